@@ -21,13 +21,16 @@ ST = ['\\begin{e}', '\\end{e}', '\\begin{f}', '\\end{f}', '\\begin', '\\end', '\
       '\\end{itemize}', '\\begin[', 'e', '\\right)', '\\left.', '|']
 SUB = {
     'env': ['\\begin{e}', '\\end{e}', '\\begin{f}', '\\end{f}', '\\begin', '\\end', '{e}', ' ', 'x', '{', '}', '\\end {e}', '\\a', '[',
-            '\\end{e }', '\\begin{ }', '\\end{ }', '\\begin{ e}'],
+            '\\end{e }', '\\begin{ }', '\\end{ }', '\\begin{ e}', '%'],
     'args': ['\\a', '{', '}', '[', ']', ' ', '\n', '\n\n', 'x', '%c\n', '\\b', ' {', ' [', '.'],
     'math': ['$', '$$', '\\(', '\\)', '\\[', '\\]', 'x', '\\$', '{', '}', '\\cup', '[', '\\left(', '\\begin{equation}', '\\end{equation}', '\\a'],
-    'verb': ['\\begin{verbatim}', '\\end{verbatim}', '\\begin{e}', '\\end{e}', '$', '{', '}', 'x', '%', '\n', '\\', '[', '\\end'],
+    'verb': ['\\begin{verbatim}', '\\end{verbatim}', '\\begin{e}', '\\end{e}', '$', '{', '}', 'x', '%', '\n', '\\', '[', '\\end',
+             '\\end{verbatim', ']', '\\begin {verbatim}', '{x} y', 'a%b'],
     'item': ['\\begin{itemize}', '\\end{itemize}', '\\item', '\\item[', ']', 'x', ' ', '{', '}', '$', '\\a', '\\begin{e}', '\\end{e}'],
     'esc': ['\\', '\\\\', '%', '\\%', 'c', '\n', '{', '}', '$', '\\$', ' ', 'a', '\\a', '*'],
-    'sig': ['\\def', '\\textbf', '\\section', '\\label', '\\newcommand', '\\a', '{', '}', '[', ']', 'x', ' ', '\\cup', '\\left', '(', '\\begin{e}', '\\end{e}'],
+    'sig': ['\\def', '\\textbf', '\\section', '\\label', '\\newcommand', '\\a', '{', '}', '[', ']', 'x', ' ', '\\cup', '\\left', '(', '\\begin{e}', '\\end{e}',
+            '\\textbf{a}', '\\label{k}', '\\section[s]{t}', '\\def{a}{b}', '\\p{a}{b}{c}', '\\newcommand{\\p}[2]{x}'],
+    'names': ['\\emph', '\\textit', '\\ref', '\\cite', '\\frac', '\\text', '\\section*', '\\item', '%c\n', ' ', 'x', '{', '}', '[', ']', '\n'],
     'ign': ['\x00', '\x7f', '\\', '$', '%', '{', '}', 'a', ' ', '\n', '[', '(', '\\\\'],
 }
 
